@@ -26,9 +26,13 @@ DoApiTxn ==
            a == ApiOps(Ev.call, db)
            post == DbJ(Ev.post)
        IN  /\ Ev.call.kind # "create" =>
-                Chk(Ev.listErr # "" \/ SeqToSet(Ev.listed) = Meant(Ev.call.table, db[Ev.call.table], Ev.call.sel), "C08",
-                    "the rows a selection of the model API lists are not the rows it stands for",
-                    [sel |-> Ev.call.sel, listed |-> Ev.listed, want |-> Meant(Ev.call.table, db[Ev.call.table], Ev.call.sel)])
+                /\ Chk((Ev.listErr # "") = SelError(Ev.call.table, Ev.call.sel), "C08",
+                       "the model API refuses to list a selection it must accept, or accepts one it must refuse",
+                       [sel |-> Ev.call.sel, error |-> Ev.listErr])
+                /\ (Ev.listErr = "" /\ ~SelError(Ev.call.table, Ev.call.sel)) =>
+                     Chk(SeqToSet(Ev.listed) = Meant(Ev.call.table, db[Ev.call.table], Ev.call.sel), "C08",
+                         "the rows a selection of the model API lists are not the rows it stands for",
+                         [sel |-> Ev.call.sel, listed |-> Ev.listed, want |-> Meant(Ev.call.table, db[Ev.call.table], Ev.call.sel)])
            /\ Chk(a.err = Ev.apiErr, "C03",
                   "the model API refuses a call it must accept, or accepts one it must refuse",
                   [call |-> CallKey(Ev.call), refused |-> Ev.apiErr, error |-> Ev.apiErrText])
